@@ -78,7 +78,7 @@ pub fn draw_params<W: World>(w: &W, n: usize, rng: &mut Rng) -> RunParams {
         batch,
         max_proofs,
         max_buckets: p.range(1, 4) as usize,
-        max_verifies: p.range(1, 6) as usize,
+        max_verifies: p.range(1, 9) as usize,
         window_ns,
     };
     let nworld = p.range(6, 28) as usize;
@@ -120,7 +120,7 @@ pub fn draw_params<W: World>(w: &W, n: usize, rng: &mut Rng) -> RunParams {
         policy_period_ns: *p.pick(&[3 * S, 10 * S, 45 * S]),
         reprove_timeout_ns: *p.pick(&[20 * S, 60 * S]),
         send_gap_ns,
-        max_events: p.range(40, 120) as usize,
+        max_events: p.range(50, 160) as usize,
     }
 }
 
@@ -210,21 +210,23 @@ pub fn run<B: Backend, W: World>(be: &mut B, w: &W, params: RunParams, seed: u64
     at!(params.expiry_period_ns, Ev::ExpiryTick { max_age_ns: params.max_age_ns });
     at!(params.policy_period_ns, Ev::PolicyTick);
     at!(sched.range(0, horizon), Ev::Stats);
+    // faults land inside the workload span, where there is in-flight state
+    let span = t_send.max(S);
     if f.operator {
-        at!(sched.range(0, horizon), Ev::OperatorRemove);
+        at!(sched.range(span / 8, span), Ev::OperatorRemove);
     }
     if f.stalls {
-        at!(sched.range(0, horizon), Ev::StallStart);
+        at!(sched.range(0, span), Ev::StallStart);
     }
     if f.crashes {
-        at!(sched.range(horizon / 4, horizon), Ev::MinerCrash);
+        at!(sched.range(span / 3, span), Ev::MinerCrash);
     }
     if f.partitions {
-        at!(sched.range(0, horizon), Ev::PartitionStart);
+        at!(sched.range(0, span), Ev::PartitionStart);
     }
     if f.boundary_probes {
         for _ in 0..3 {
-            at!(sched.range(0, horizon), Ev::BoundaryProbe);
+            at!(sched.range(0, span), Ev::BoundaryProbe);
         }
     }
 
@@ -416,7 +418,9 @@ pub fn run<B: Backend, W: World>(be: &mut B, w: &W, params: RunParams, seed: u64
                 }
                 Ev::OperatorRemove => {
                     let keys = w.universe_keys();
-                    let key = keys[sched.usize(keys.len())];
+                    // mostly an existing bucket, sometimes an absent key
+                    let live: Vec<KeyRepr> = keys.iter().copied().filter(|k| exec.model.buckets.contains_key(&crate::exec::key_of(k))).collect();
+                    let key = if !live.is_empty() && sched.chance(3, 4) { live[sched.usize(live.len())] } else { keys[sched.usize(keys.len())] };
                     fired.inc("operator_remove_bucket");
                     if let Outcome::Removed(ids) = step!(Step::RemoveBucket { t: now, key }) {
                         state_changing |= !ids.is_empty();
